@@ -21,6 +21,8 @@ pub enum ErrKind {
     UnexpectedEof,
     WriteZero,
     Crash,
+    /// only injected on flush calls (on a write it is a retry request)
+    Interrupted,
 }
 
 pub const INJECTABLE: [ErrKind; 7] = [
@@ -45,6 +47,7 @@ impl ErrKind {
             ErrKind::UnexpectedEof => "UnexpectedEof",
             ErrKind::WriteZero => "WriteZero",
             ErrKind::Crash => "Crash",
+            ErrKind::Interrupted => "Interrupted",
         }
     }
     pub fn from_name(s: &str) -> Option<ErrKind> {
@@ -58,6 +61,7 @@ impl ErrKind {
             "UnexpectedEof" => ErrKind::UnexpectedEof,
             "WriteZero" => ErrKind::WriteZero,
             "Crash" => ErrKind::Crash,
+            "Interrupted" => ErrKind::Interrupted,
             _ => return None,
         })
     }
@@ -74,6 +78,7 @@ impl ErrKind {
             // a crashed process observes nothing; the simulated caller sees
             // an error of a kind nothing else produces
             ErrKind::Crash => io::ErrorKind::ConnectionAborted,
+            ErrKind::Interrupted => io::ErrorKind::Interrupted,
         }
     }
     pub fn of_io(k: io::ErrorKind) -> Option<ErrKind> {
@@ -87,6 +92,7 @@ impl ErrKind {
             io::ErrorKind::UnexpectedEof => ErrKind::UnexpectedEof,
             io::ErrorKind::WriteZero => ErrKind::WriteZero,
             io::ErrorKind::ConnectionAborted => ErrKind::Crash,
+            io::ErrorKind::Interrupted => ErrKind::Interrupted,
             _ => return None,
         })
     }
@@ -155,6 +161,12 @@ pub struct Plan {
     /// `torn` bytes (clamped to the buffer) and fails; every later call fails.
     pub crash: Option<(u64, usize)>,
     pub flips: Vec<Flip>,
+    /// One injected fault that overrides the step of write call `index`
+    /// (kept separate from `writes` so that the fault-free twin of a case is
+    /// the same plan for every fault position).
+    pub fault_write: Option<(usize, WStep)>,
+    /// The same for flush call `index`.
+    pub fault_flush: Option<(usize, ErrKind)>,
 }
 
 impl Plan {
@@ -166,6 +178,8 @@ impl Plan {
             sticky: None,
             crash: None,
             flips: vec![],
+            fault_write: None,
+            fault_flush: None,
         }
     }
     pub fn is_clean(&self) -> bool {
@@ -288,6 +302,8 @@ impl SinkState {
             sticky: self.plan.sticky,
             crash: self.plan.crash,
             flips: self.plan.flips.clone(),
+            fault_write: self.plan.fault_write,
+            fault_flush: self.plan.fault_flush,
         }
     }
 
@@ -310,6 +326,17 @@ impl SinkState {
         }
     }
 
+    /// Record a failing step, unless it came from `fault_write` (which stays
+    /// a separate field of the recorded plan): then record a plain accept.
+    fn rec_fault_or(&mut self, s: WStep) {
+        let injected = matches!(self.plan.fault_write, Some((at, _)) if at + 1 == self.w_idx);
+        if injected {
+            self.rec_w(WStep::Full);
+        } else {
+            self.rec_w(s);
+        }
+    }
+
     fn note_fault(&mut self, ev: u64, kind: ErrKind) {
         if self.first_fault_event.is_none() {
             self.first_fault_event = Some(ev);
@@ -320,6 +347,11 @@ impl SinkState {
 
     fn decide_write(&mut self, len: usize) -> WStep {
         let i = self.w_idx;
+        if let Some((at, step)) = self.plan.fault_write {
+            if at == i {
+                return step;
+            }
+        }
         if i < self.plan.writes.len() {
             return self.plan.writes[i];
         }
@@ -439,7 +471,7 @@ impl SinkState {
                 self.intr_run = 0;
                 self.fired.err += 1;
                 self.note_fault(ev, kind);
-                self.rec_w(step);
+                self.rec_fault_or(step);
                 self.push_ev(EvKind::Write, buf.len(), -2);
                 Err(io::Error::new(kind.io_kind(), "sim: injected fault"))
             }
@@ -447,7 +479,7 @@ impl SinkState {
                 self.intr_run = 0;
                 self.fired.zero += 1;
                 self.note_fault(ev, ErrKind::WriteZero);
-                self.rec_w(step);
+                self.rec_fault_or(step);
                 self.push_ev(EvKind::Write, buf.len(), -3);
                 Ok(0)
             }
@@ -505,15 +537,21 @@ impl SinkState {
                 return Err(io::Error::new(kind.io_kind(), "sim: sticky fault"));
             }
         }
-        let step = if self.f_idx < self.plan.flushes.len() {
+        let mut step = if self.f_idx < self.plan.flushes.len() {
             self.plan.flushes[self.f_idx]
         } else {
             FStep::Ok
         };
-        self.f_idx += 1;
-        if self.record {
-            self.rec_flushes.push(step);
+        if let Some((at, kind)) = self.plan.fault_flush {
+            if at == self.f_idx {
+                step = FStep::Err(kind);
+            }
         }
+        if self.record {
+            let injected = matches!(self.plan.fault_flush, Some((at, _)) if at == self.f_idx);
+            self.rec_flushes.push(if injected { FStep::Ok } else { step });
+        }
+        self.f_idx += 1;
         match step {
             FStep::Ok => {
                 self.fired.flush_ok += 1;
